@@ -37,6 +37,21 @@ def rnd_files(rng, n, maxlen):
     return files
 
 
+def share_bodies(rng, files):
+    """make some bodies slices (prefix / suffix / inner part / copy) of another body, so that the writer's `share` knob
+    can let two records name overlapping or identical ranges"""
+    out = list(files)
+    for j in range(len(out)):
+        if len(out) > 1 and rng.random() < 0.35:
+            i = rng.randrange(len(out))
+            src = out[i][1]
+            if i != j and src:
+                a = rng.randint(0, len(src))
+                b = rng.randint(a, len(src))
+                out[j] = (out[j][0], src[a:b] if rng.random() < 0.7 else src)
+    return out
+
+
 def render(image, expect, files):
     """arc B<image> E<expected outcome> (B<name> B<body>)*   - the expectation travels with the case so that a replay
     evaluates the same oracle; the tools read the image only"""
@@ -58,7 +73,8 @@ class C16(PropertyCheck):
     pid = "C16"
     release_too = True
     rule = ("streams: images from a Python arc writer on top of a Python bin-archive writer with layout knobs (padded 0x60 header or "
-            "not, record order != body order, unaligned / empty / zero-filled / overlapping-free bodies with gaps, Count before or after Info, "
+            "not, record order != body order, unaligned / empty / zero-filled bodies with gaps, bodies before and AFTER the tables, a body ending "
+            "exactly on the last byte of the data region, shared and overlapping ranges, Count before or after Info, "
             "extra labels, permuted pointer and label tables, junk and duplicated strings in the text section, non-ASCII lossless names), "
             "0-12 files quick / up to 100 thorough; each error variant (no Count, no Info, record without a string, range leaving the data "
             "region, planted offsets incl. 0xFFFFFFF0 = finding F9, Count larger/smaller than the table); ArcTest.arc. The result is compared "
@@ -67,7 +83,8 @@ class C16(PropertyCheck):
     assumptions = ["A-codec: file names are Shift-JIS strings encoding_rs converts losslessly (the model's raw names are decoded with the "
                    "library's own decoder before comparing)",
                    "A-std: HashMap (compared sorted), Vec",
-                   "byte level: C16 theorems are stated for the archive BinArchive::from_bytes returns (C01 parser correctness is the premise)"]
+                   "byte level: C16_extract_from_file / C16_file_no_count / C16_file_no_info quantify over every byte string that conforms to C01's "
+                   "format relation (Proofs/BinFormatSpec.v) with an arc-shaped content; no premise about BinArchive::from_bytes is left"]
 
     def generate(self, rng, tier):
         cases = []
@@ -76,9 +93,13 @@ class C16(PropertyCheck):
         for _ in range(n_ok):
             nf = rng.choice([0, 1, 2, 3, rng.randint(1, 12), rng.randint(1, 12), rng.randint(1, 12)])
             files = rnd_files(rng, nf, 40)
+            share = rng.random() < 0.3
+            if share:
+                files = share_bodies(rng, files)
             kw = dict(padded=rng.random() < 0.5, permute_bodies=rng.random() < 0.7, unaligned=rng.random() < 0.5, gaps=rng.random() < 0.4,
                       count_first=rng.random() < 0.5, extra_labels=rng.random() < 0.6, shuffle_tables=rng.random() < 0.5,
-                      junk_text=rng.random() < 0.3, dup_strings=rng.random() < 0.3)
+                      junk_text=rng.random() < 0.3, dup_strings=rng.random() < 0.3,
+                      tail=rng.choice([0.0, 0.0, 0.3, 1.0]), end_exact=rng.random() < 0.5, share=share)
             image, exp = txtfile.arc_write(files, rng, **kw)
             cases.append(Case(render(image, exp, files), "layout-knobs"))
         if not quick:
@@ -89,9 +110,9 @@ class C16(PropertyCheck):
                     cases.append(Case(render(image, exp, files), "layout-knobs-large"))
         # knob grid on a fixed small file set (every combination of the boolean knobs)
         base = [(b"one.bin", b"\x01\x02\x03\x04\x05"), (b"empty", b""), (b"zeros", bytes(7)), (b"\x95\x5c.lz", bytes(range(40, 57)))]
-        for mask in range(64):
+        for mask in range(256):
             kw = dict(padded=bool(mask & 1), permute_bodies=bool(mask & 2), unaligned=bool(mask & 4), gaps=bool(mask & 8),
-                      count_first=bool(mask & 16), extra_labels=bool(mask & 32))
+                      count_first=bool(mask & 16), extra_labels=bool(mask & 32), tail=0.5 if mask & 64 else 0.0, end_exact=bool(mask & 128))
             image, exp = txtfile.arc_write(base, rng, **kw)
             cases.append(Case(render(image, exp, base), "knob-grid"))
         # error variants
@@ -188,7 +209,8 @@ MANIFEST = dict(
          "no panic and no fuel exhaustion on ANY archive in both arithmetic modes. Model tied to /repo on every run by the extracted model vs "
          "the real library on images from a Python arc writer with layout knobs and error variants (debug and release), results compared as "
          "sorted maps with the file set the image was built from.",
-    note=TB + "The theorems speak about the archive BinArchive::from_bytes returns (byte level = C01 parser correctness, premise `from_bytes LE f = Ok a`). "
+    note=TB + "Byte level: C16_extract_from_file (every file conforming to C01's format relation with an arc-shaped content is extracted exactly; "
+              "proved from C01's parser correctness, Proofs/TextBinBridge.v + ArcBytes.v); the other theorems speak about the parsed archive. "
               "Modelled, not verified: HashMap, Vec (A-std), encoding_rs for names (A-codec). Repaired defect: F9 bc4a741.",
     technique="Coq proof (induction over the record list with the cursor invariant pos = info + 16 i; block-read lemma) + extracted-model differential check",
     ref="DESIGN.md section 6 (C16)")
